@@ -39,7 +39,9 @@ def plan(tier, seed):
 def make_variants(pane, tagset, bodyrel, kind):
     """Returns list of (variant type, tag, good bodies, bad bodies)."""
     out = []
+    rev = list(reversed(tagset))
     for i, tag in enumerate(tagset):
+        tag2 = rev[i]
         if kind == 'pane':
             if bodyrel == 'identical':
                 fields = {'y': (int, 1)}
@@ -47,19 +49,19 @@ def make_variants(pane, tagset, bodyrel, kind):
                 fields = dict(list({'y': (int, 1), 'z': (int, 7), 'w': (str, 'w')}.items())[: i + 1])
             else:
                 fields = [{'a': (int, 1)}, {'b': (str, 's')}, {'c': (float, 0.5)}][i]
-            ann = {'x': t.Literal[tag], **{k: ty for k, (ty, _) in fields.items()}}
-            ns = {'__annotations__': ann, 'x': tag, '__module__': 'mc.generated', **{k: d for k, (_, d) in fields.items()}}
+            ann = {'x': t.Literal[tag], 'x2': t.Literal[tag2], **{k: ty for k, (ty, _) in fields.items()}}
+            ns = {'__annotations__': ann, 'x': tag, 'x2': tag2, '__module__': 'mc.generated', **{k: d for k, (_, d) in fields.items()}}
             V = grammar.pin(type(f"V{i + 1}", (pane.PaneBase,), ns))
             names = list(fields)
             good = [{}, {names[0]: fields[names[0]][1]}, {k: d for k, (_, d) in fields.items()}]
             bad = [{names[0]: [None]}, {**good[2], 'unknown': 1}, {names[0]: {'q': 1}}]
         elif kind == 'dictsub':
-            V = grammar.pin(type(f"D{i + 1}", (dict,), {'x': tag, '__module__': 'mc.generated'}))
+            V = grammar.pin(type(f"D{i + 1}", (dict,), {'x': tag, 'x2': tag2, '__module__': 'mc.generated'}))
             good = [{}, {'k': 1}, {'k': [1, 2], 'j': None}]
             bad = []
         else:
             base = [int, float, str][i % 3] if bodyrel != 'identical' else int
-            V = grammar.pin(type(f"S{i + 1}", (base,), {'x': tag, '__module__': 'mc.generated'}))
+            V = grammar.pin(type(f"S{i + 1}", (base,), {'x': tag, 'x2': tag2, '__module__': 'mc.generated'}))
             good = [{int: 4, float: 2.5, str: 'q'}[base]]
             bad = [[1], None, {'a': 1}]
         out.append((V, tag, good, bad))
@@ -88,6 +90,12 @@ def wrap(layout, tagname, tag, body):
         d[tk] = tag
     d[ck] = body
     return d
+
+
+def wrap_content_first(layout, tag, body):
+    """Adjacent layout with the content key before the tag key (what sort_keys=True writes for ('t', 'c'))."""
+    tk, ck = layout[1]
+    return {ck: body, tk: tag}
 
 
 def declared_index(tagset, tag):
@@ -141,6 +149,8 @@ def run_type(pane, res, tsi, bri, kind, li, tier):
                 d = wrap(layout, 'x', tg, body)
                 if d is not None:
                     data.append(('wrapped', tg, body, d))
+                if lname == 'adjacent' and tg is not ABSENT:
+                    data.append(('wrapped', tg, body, wrap_content_first(layout, tg, body)))
     # layout-specific malformed wrappers
     b0 = variants[0][2][0]
     if lname == 'external':
@@ -155,6 +165,7 @@ def run_type(pane, res, tsi, bri, kind, li, tier):
     for v in values.POOL:
         if values.kind(v) != 'map':
             data.append(('non_mapping', ABSENT, None, v))
+    second_attribute_and_holder(pane, res, variants, tagset, layout, kind, bodyrel, TU, info)
     seen = set()
     for case, tg, body, d in data:
         k = values.ckey(d)
@@ -243,6 +254,64 @@ def run_type(pane, res, tsi, bri, kind, li, tier):
             if values.kind(d) == 'map' and not names_tag(text, tagset, layout):
                 core.add_violation(res, {'kind': 'error_does_not_name_tag', 'case': tagcase.split(':')[0], **sig},
                                    f"{desc}: the ConvertError does not name the tag: {text[:160]!r}", cell, 5)
+
+
+def second_attribute_and_holder(pane, res, variants, tagset, layout, kind, bodyrel, TU, info):
+    from pane.annotations import Tagged
+    from pane.errors import ConvertError
+    lname = layout[0]
+    U = t.Union[tuple(v[0] for v in variants)]
+    # (1) the same variant tuple tagged by ANOTHER attribute must dispatch on that attribute's values
+    TU2 = grammar.pin(t.Annotated[U, Tagged('x2', external=layout[1])])
+    rev = list(reversed(tagset))
+    for i, (V, tag, good, bad) in enumerate(variants):
+        tag2 = rev[i]
+        body = good[0]
+        d = wrap(layout, 'x2', tag2, body)
+        if d is None:
+            continue
+        res['evals'] += 1
+        res['transitions'] += 1
+        res['validated'] += 1
+        res['nontrivial'].add(f"second_attr|{lname}|{kind}|{bodyrel}")
+        try:
+            r = pane.from_data(values.fresh(d), TU2)
+            got = type(r).__name__
+        except ConvertError as e:
+            r, got = None, 'ConvertError: ' + core.sstr(e, 60)
+        except Exception as e:  # noqa
+            r, got = None, f"{type(e).__name__}: {core.sstr(e, 60)}"
+        if type(r) is not V:
+            core.add_violation(res, {'kind': 'second_tag_attribute_dispatch', 'layout': lname, 'vkind': kind},
+                               f"{lname}/{kind}/{bodyrel} tags={tagset}: the same variants tagged by attribute 'x2' (values {rev}): "
+                               f"{values.expr(d)[:60]} must select {V.__name__} (x2={tag2!r}), got {got}", dict(info, d='second:' + values.expr(d)), 5)
+    # (2) a tuple-output dataclass holding the tagged union in a field writes the union's layout and reads it back
+    if kind != 'pane' and lname == 'internal':
+        return
+    try:
+        H = grammar.pin(type('TagHolder', (pane.PaneBase,), {'__annotations__': {'n': int, 'u': TU}, '__module__': 'mc.generated'},
+                             out_format='tuple', in_format=('tuple', 'struct')))
+    except Exception as e:  # noqa
+        core.add_violation(res, {'kind': 'holder_creation', 'exc': type(e).__name__}, f"holder class: {e!r}", dict(info, d='holder'), 5)
+        return
+    for (V, tag, good, bad) in variants:
+        try:
+            inner = pane.from_data(values.fresh(good[-1]), V)
+            h = H.make_unchecked(1, inner)
+            d = pane.into_data(h, H)
+            back = pane.from_data(values.fresh(d), H)
+            ok = type(back) is H and (back == h or values.typed_eq(back, h))
+            got = f"into_data -> {core.srepr(d, 70)} -> {core.srepr(back, 50)}"
+        except Exception as e:  # noqa
+            ok, got = False, f"{type(e).__name__}: {core.sstr(e, 90)}"
+        res['evals'] += 1
+        res['transitions'] += 2
+        res['validated'] += 1
+        res['nontrivial'].add(f"holder|{lname}|{kind}|{bodyrel}")
+        if not ok:
+            core.add_violation(res, {'kind': 'tuple_output_holder_roundtrip', 'layout': lname, 'vkind': kind},
+                               f"{lname}/{kind}/{bodyrel} tags={tagset}: a tuple-output dataclass with a field of the tagged union: {got}",
+                               dict(info, d='holder'), 5)
 
 
 def check_symmetry(pane, res, TU, x, tag, layout, kind, desc, cell, sig):
